@@ -786,6 +786,7 @@ func (t *tree) parseHeaderParam(token item) ast.Node {
 // For example, string, list or map literals, arithmetic, boolean operations, etc.
 func Expr(str string) (node ast.Node, err error) {
 	var t = &tree{lex: lexExpr("", str)}
+	defer t.lex.drain() // the scanner must not outlive the call, even with trailing input
 	defer t.recover(&err)
 	return t.parseExpr(0), err
 }
